@@ -42,6 +42,19 @@ CLAIMED = {
         "of the attribute lists; import machinery is runtime.",
         "Lean 4 proof (decision-logic characterisation, invariant by induction over operation histories) + "
         "mutant/history correspondence", "DESIGN.md §5 C18"),
+    "C19": (
+        "Machine-checked Lean 4 proof about a hand model of the profile store (Profile.__init__/__getitem__ "
+        "with write-through/__setitem__/get_fit_params): for every history of new-object/read/write "
+        "operations the value read for a key is the last value written (induction over histories), reads and "
+        "new objects change no effective value, invalid fit-parameter keys are refused, fit parameters are the "
+        "model defaults overridden by exactly the stored entries; the two transformed setup answers (range "
+        "type renaming, independent interval bounds) always yield a profile the fitter accepts. Defaults "
+        "regenerated from cli.profile.DEFAULTS. Partial: legacy parsing, input(), JSON text round-trip, the "
+        "batch fit and statistics.tsv are explored on the implementation, not proved.",
+        "Trusted: Lean kernel, standard axioms, hand model (history correspondence on real profile files), "
+        "DEFAULTS dump; JSON/float round-trip and the batch run are runtime.",
+        "Lean 4 proof (invariant by induction over operation histories) + history correspondence + scripted "
+        "setup/legacy/batch-fit oracles", "DESIGN.md §5 C19"),
 }
 
 PENDING_REASON = "check not built yet in this round (planned, see DESIGN.md §8); not claimed until its machinery exists"
